@@ -451,6 +451,12 @@ func (w *writer) setCode(set *CharSet) int {
 	set.mapHashFill(buf)
 	hash := buf.String()
 	i, ok := w.sethash[hash]
+	for ok && !w.settable[i].Equals(set) {
+		// the key writes ranges as UTF-8, which maps every surrogate code point to U+FFFD:
+		// different sets can share a key
+		hash += "\x00"
+		i, ok = w.sethash[hash]
+	}
 	if !ok {
 		i = len(w.sethash)
 		w.sethash[hash] = i
@@ -468,6 +474,11 @@ func (w *writer) stringCode(str []rune) int {
 
 	hash := string(str)
 	i, ok := w.stringhash[hash]
+	for ok && !slices.Equal(w.stringtable[i], str) {
+		// string(str) maps every surrogate code point to U+FFFD: different strings can share a key
+		hash += "\x00"
+		i, ok = w.stringhash[hash]
+	}
 	if !ok {
 		i = len(w.stringhash)
 		w.stringhash[hash] = i
